@@ -82,7 +82,8 @@ class RealResult(object):
         d.pop("mem_bytes", None)
         if d.get("init"):
             d["init"] = {k: v for k, v in d["init"].items() if k != "mem_bytes"}
-        d["child_dumps"] = {str(k): {w: {f: v for f, v in dd.items() if f != "mem_bytes"} for w, dd in x.items()} for k, x in self.child_dumps.items()}
+        d["child_dumps"] = {str(k): {w: ({f: v for f, v in dd.items() if f != "mem_bytes"} if w != "shared" else dd) for w, dd in x.items()}
+                            for k, x in self.child_dumps.items()}
         d["globals"] = {k.hex() if isinstance(k, bytes) else str(k): v for k, v in self.globals.items()}
         return d
 
@@ -341,7 +342,8 @@ def gen_main(module, name, header_text, script, imports_spec=None, instances=1, 
         if children[ck][1] >= len(script):
             calls.append("  newChild(%d, %d);" % (ck, children[ck][0]))
     t = open(TMPL).read()
-    rep = {"@@SKIP_CHILD@@": "    if (isChildSlot[k]) { alive[k] = 0; continue; }" if children else "",
+    share = ['    OUT("s %%d %d %%d\\n", k, INST(k).%s == INST(parent).%s);' % (len(h.mem_imports) + j, f[1], f[1]) for j, f in enumerate(h.mems)]
+    rep = {"@@CHILD_SHARE@@": "\n".join(share), "@@SKIP_CHILD@@": "    if (isChildSlot[k]) { alive[k] = 0; continue; }" if children else "",
            "@@CHILD_SLOTS@@": "".join("%d, " % (1 if k in children else 0) for k in range(instances)),
            "@@HEADER@@": name + ".h", "@@NINST@@": str(instances), "@@MOD@@": name,
            "@@IMPORT_STORAGE@@": "\n".join(storage), "@@HOST_FUNCS@@": "\n\n".join(hosts),
@@ -401,11 +403,14 @@ def parse_output(out, module, instances, ncalls, script, rundir, keep_mem=False)
             continue
         if w[0] == "p":
             phase = w[1]
-            if phase == "child":
+            if phase in ("child", "prechild"):
                 child_k = int(w[2])
             continue
-        if phase == "child" and w[0] in ("b", "g", "t", "m"):
-            who = "self" if int(w[1]) == child_k else "parent"
+        if phase == "child" and w[0] == "s":
+            rs[child_k].child_dumps.setdefault(child_k, {}).setdefault("shared", {})[int(w[2])] = w[3] == "1"
+            continue
+        if phase in ("child", "prechild") and w[0] in ("b", "g", "t", "m"):
+            who = "parent_before" if phase == "prechild" else ("self" if int(w[1]) == child_k else "parent")
             dd = rs[child_k].child_dumps.setdefault(child_k, {}).setdefault(who, {"mem": None, "all_globals": {}, "table": None, "mem_bytes": None, "bound": {}})
             if w[0] == "g":
                 t, b = w[3].split(":")
